@@ -788,7 +788,8 @@ struct CliWorld : World {
         bool io_err = r.fired[FK_EIO] != 0 || r.hard;
         if (!io_err) {
             if (r.out != want) viol(c, "digest_output", site, fmt("alg=%d stdout differs from the library digests (%zu vs %zu bytes)", alg, r.out.size(), want.size()));
-            if ((r.exit_code != 0) != missing) viol(c, "exit_status", site, fmt("exit=%d with missing_file=%d", r.exit_code, (int)missing));
+            // a file that cannot be opened is an I/O error the tool must report; an exit status for the all-fine case is not stated by C19
+            if (missing && r.exit_code == 0) viol(c, "exit_status", site, "exit=0 although a named file could not be opened");
             if (r.out == want) c.run->probe("sum.ok");
         } else {
             if (r.exit_code == 0) viol(c, "exit_zero_after_io_error", site, fault_summary(r));
